@@ -3,11 +3,13 @@ package c01
 
 import (
 	"fmt"
+	"net/url"
 	"os"
 	"strings"
 	"testing"
 
 	"google.golang.org/protobuf/proto"
+	"google.golang.org/protobuf/reflect/protoreflect"
 	"pgregory.net/rapid"
 
 	"verif/evid"
@@ -28,6 +30,17 @@ type Req struct {
 	Verb string `json:"verb"`
 	Path string `json:"path"`
 	Kind string `json:"kind"` // inst | near:<mutation> | free
+	// QField/QValue: a decoy query parameter naming a string field that some
+	// template of the rule set binds; it must never displace the path text.
+	QField string `json:"q_field,omitempty"`
+	QValue string `json:"q_value,omitempty"`
+}
+
+func (r Req) query() string {
+	if r.QField == "" {
+		return ""
+	}
+	return r.QField + "=" + url.QueryEscape(r.QValue)
 }
 
 // Case is a rule set plus requests.
@@ -43,7 +56,8 @@ type reqResult struct {
 
 // explain reports whether some binding owned by the dispatched method
 // accounts for (verb, path, message).
-func explain(owned []route.Owned, b *route.Built, verb, path string, o route.Outcome) bool {
+func explain(owned []route.Owned, b *route.Built, r Req, path string, o route.Outcome) bool {
+	verb := r.Verb
 	md := route.ReqDesc(b.World)
 	for _, ow := range owned {
 		if route.MethodName(ow.Svc) != o.Method || !route.VerbMatches(ow.B.Verb, verb) {
@@ -52,6 +66,15 @@ func explain(owned []route.Owned, b *route.Built, verb, path string, o route.Out
 		for _, form := range route.PathForms(path) {
 			for _, bind := range ow.T.Match(form, 0) {
 				for _, e := range route.Expected(md, ow.T.Vars(), bind) {
+					if r.QField != "" {
+						bound := false
+						for _, fp := range ow.T.Vars() {
+							bound = bound || strings.Join(fp, ".") == r.QField
+						}
+						if !bound { // the query may fill a field this template does not bind
+							ref.SetPath(e.ProtoReflect(), ref.ResolvePath(md, strings.Split(r.QField, ".")), protoreflect.ValueOfString(r.QValue))
+						}
+					}
 					if proto.Equal(e, o.Msg) {
 						return true
 					}
@@ -69,12 +92,12 @@ func Check(c Case) ([]evid.Violation, []reqResult) {
 	var vs []evid.Violation
 	out := make([]reqResult, len(c.Reqs))
 	for i, r := range c.Reqs {
-		o := b.Do(r.Verb, r.Path, "")
+		o := b.Do(r.Verb, r.Path, r.query())
 		if o.Method == "" {
 			continue
 		}
 		out[i].dispatched = true
-		if explain(owned, b, r.Verb, r.Path, o) {
+		if explain(owned, b, r, r.Path, o) {
 			out[i].explained = true
 			continue
 		}
@@ -84,7 +107,7 @@ func Check(c Case) ([]evid.Violation, []reqResult) {
 			for j := 0; j < len(r.Path); j++ {
 				if r.Path[j] == ':' {
 					alt := r.Path[:j] + "/" + r.Path[j+1:]
-					if explain(owned, b, r.Verb, alt, o) {
+					if explain(owned, b, r, alt, o) {
 						sig = "colon-accepted-as-slash"
 						break
 					}
@@ -97,8 +120,14 @@ func Check(c Case) ([]evid.Violation, []reqResult) {
 				mine = append(mine, ow.B.Verb+" "+ow.B.Tmpl)
 			}
 		}
-		vs = append(vs, evid.V("unsound-dispatch", sig, "%s %q dispatched to %s with {%v}; no rule of that method explains it (its rules: %v)",
-			r.Verb, r.Path, o.Method, o.Msg, mine))
+		if r.QField != "" {
+			// same request without the decoy: if that is explained, the query displaced a path-bound value
+			if o2 := b.Do(r.Verb, r.Path, ""); o2.Method == o.Method && explain(owned, b, Req{Verb: r.Verb}, r.Path, o2) {
+				sig = "query-displaces-path-value"
+			}
+		}
+		vs = append(vs, evid.V("unsound-dispatch", sig, "%s %q ?%s dispatched to %s with {%v}; no rule of that method explains it (its rules: %v)",
+			r.Verb, r.Path, r.query(), o.Method, o.Msg, mine))
 	}
 	return vs, out
 }
@@ -196,6 +225,14 @@ func genCase(t *rapid.T) Case {
 		tms = append(tms, it)
 		verbs = append(verbs, "*")
 	}
+	var strFields []string
+	for _, tm := range tms {
+		for _, fp := range tm.Vars() {
+			if f := strings.Join(fp, "."); route.FieldKind(f) == "str" {
+				strFields = append(strFields, f)
+			}
+		}
+	}
 	n := rapid.IntRange(8, 16).Draw(t, "nreqs")
 	for i := 0; i < n; i++ {
 		k := rapid.IntRange(0, 9).Draw(t, "rk")
@@ -220,7 +257,12 @@ func genCase(t *rapid.T) Case {
 				kind += "+" + m
 			}
 		}
-		c.Reqs = append(c.Reqs, Req{Verb: verb, Path: path, Kind: kind})
+		rq := Req{Verb: verb, Path: path, Kind: kind}
+		if len(strFields) > 0 && rapid.IntRange(0, 3).Draw(t, "decoy") == 0 {
+			rq.QField = rapid.SampledFrom(strFields).Draw(t, "qfield")
+			rq.QValue = route.GenSegment(t, "qvalue")
+		}
+		c.Reqs = append(c.Reqs, rq)
 	}
 	return c
 }
@@ -274,6 +316,9 @@ func record(c Case, rr []reqResult) {
 		if strings.Contains(r.Path, ":") {
 			cl = append(cl, "path-has-colon")
 		}
+		if r.QField != "" {
+			cl = append(cl, "decoy-query-on-bound-field")
+		}
 		if rr[i].dispatched {
 			cl = append(cl, "dispatched")
 			key = fmt.Sprintf("d|%s|%s|%v", r.Kind, shapeOf(r.Path), tc)
@@ -314,6 +359,17 @@ func TestProp(t *testing.T) {
 		evid.Sample("case", c)
 		evid.Report(t, prop, c, vs)
 	})
+}
+
+// FuzzRoute is the native coverage-guided target (thorough tier): the same rule-set/request generator driven by the fuzzer's bytes.
+func FuzzRoute(f *testing.F) {
+	f.Fuzz(rapid.MakeFuzz(func(t *rapid.T) {
+		c := genCase(t)
+		vs, _ := Check(c)
+		if len(vs) > 0 && !evid.IsKnown(prop, vs[0].Sig) {
+			t.Fatalf("property %s violated: %v\ncase: %+v", prop, vs[0], c)
+		}
+	}))
 }
 
 func TestReplay(t *testing.T) {
